@@ -251,17 +251,16 @@ theorem sim_p_quiet {s s' : State} {th : Th} {ch ch2 : Nat} {op : MOp} {rest : L
         cases hform <;> simp only [List.cons.injEq] at hl <;> obtain ⟨rfl, -⟩ := hl <;> simp [MOp.isRem] at h2
   refine sim_stutter pf.srv ?_ ?_ (fun id _ => pf.fail id) h
   · rw [pf.view]
-    refine ⟨?_, Iff.rfl, ?_, rfl, ?_, ?_, Iff.rfl, Iff.rfl, Iff.rfl, fun _ => Iff.rfl⟩
+    refine ⟨?_, Iff.rfl, ?_, rfl, ?_, ?_, Iff.rfl, Iff.rfl, fun _ _ => Iff.rfl⟩
     · simp only [viewOf]; rw [hfl.rsubs h1]
     · simp only [viewOf]; rw [microStep_objs h2 hs]
-    · intro id
+    · intro id _
       simp only [viewOf]
       by_cases e : Th.sock (srvOf s cn) = th
       · subst e
         rw [hdlTok_dspFree (dspFree_micro hfree hs), hprog, hdlTok_dspFree hfree]
       · rw [hf.prog_other _ e]
-    · intro cur
-      simp only [dV, viewOf]; rw [hfl.loopQ h3]
+    · simp only [dV, viewOf]; rw [hfl.loopQ h3]
   · intro th' hth'
     by_cases e : th' = th
     · subst e
